@@ -1,13 +1,21 @@
 ;; C20 driver: runs (chibi regexp) on (sre, subject) pairs read as data and RECORDS the results (never judges).
 ;; usage: chibi-scheme regexdrv.scm cases.scm
-;; input : one datum per SRE:   (sre (id . "subject") (id . "subject") ...)
+;; input : one datum per SRE:   (sre (id . "subject") (id . "subject") ...)   in this order, all in one process
+;;         (a sub-form (pcre "str") of the sre is replaced by (pcre->sre "str") first)
 ;; output: one JSON object per case on stdout:
 ;;   {"id":k,"err":0|1,"m":0|1,"mf":0|1,"mm":[[s,e]..],"sf":0|1,"ss":[[s,e]..]}
 ;;   m  = (regexp-matches? sre subject)
 ;;   mf/mm = (regexp-matches sre subject): found?, spans of submatch 0..(regexp-match-count)
 ;;   sf/ss = (regexp-search sre subject) likewise;  #f start/end is logged as -1
 (import (scheme base) (scheme read) (scheme write) (scheme file) (scheme process-context)
-        (chibi regexp))
+        (chibi regexp) (chibi regexp pcre))
+
+;; (pcre "\\d") inside an SRE datum stands for the SRE that the PCRE front end produces for that string
+(define (expand x)
+  (cond ((and (pair? x) (eq? (car x) 'pcre) (pair? (cdr x)) (string? (cadr x)) (null? (cddr x)))
+         (pcre->sre (cadr x)))
+        ((pair? x) (cons (expand (car x)) (expand (cdr x))))
+        (else x)))
 
 (define (idx x) (if (and (integer? x) (exact? x)) x -1))
 
@@ -68,6 +76,6 @@
       (let lp ()
         (let ((x (read in)))
           (unless (eof-object? x)
-            (run-sre (car x) (cdr x))
+            (run-sre (guard (e (#t (car x))) (expand (car x))) (cdr x))
             (lp))))))
   (flush-output-port))
